@@ -372,4 +372,127 @@ theorem pending_exact {s : St} (h : Reach s) (n : Nat) (hn : n < s.next) (hc : s
   have : s.delLog.count n = 0 := List.count_eq_zero.mpr hd
   omega
 
+
+/-! ### Per key, the atomic handler sees departures in installation order
+
+  Node identities are handed out in installation order (`next` only grows).  Invariant: everything already reported for a key
+  is older than the node the key holds now, so each new report — always of the node installed at that moment — is younger
+  than all earlier reports for the same key. -/
+
+/-- a list of node ids in which, among nodes of the same key, ids increase -/
+def KeyOrdered (keyOf : Nat → Nat) (l : List Nat) : Prop := l.Pairwise (fun a b => keyOf a = keyOf b → a < b)
+
+structure OrdInv (s : St) : Prop where
+  lt : ∀ n, n ∈ s.atomicLog → n < s.next
+  below : ∀ k o, s.cell k = some o → ∀ n, n ∈ s.atomicLog → s.keyOf n = k → n < o
+  ord : KeyOrdered s.keyOf s.atomicLog
+
+theorem keyOrdered_snoc {keyOf : Nat → Nat} {l : List Nat} {o : Nat} (h : KeyOrdered keyOf l)
+    (hb : ∀ n, n ∈ l → keyOf n = keyOf o → n < o) : KeyOrdered keyOf (l ++ [o]) := by
+  unfold KeyOrdered at *
+  rw [List.pairwise_append]
+  refine ⟨h, List.pairwise_singleton _ _, ?_⟩
+  intro a ha b hb'
+  rw [List.mem_singleton] at hb'
+  subst hb'
+  exact hb a ha
+
+theorem keyOrdered_congr {keyOf keyOf' : Nat → Nat} {l : List Nat} (h : KeyOrdered keyOf l)
+    (he : ∀ n, n ∈ l → keyOf' n = keyOf n) : KeyOrdered keyOf' l := by
+  unfold KeyOrdered at *
+  induction l with
+  | nil => exact List.Pairwise.nil
+  | cons a t ih =>
+    rw [List.pairwise_cons] at h ⊢
+    refine ⟨?_, ih h.2 (fun n hn => he n (List.mem_cons_of_mem _ hn))⟩
+    intro b hb hk
+    rw [he a (List.mem_cons_self ..), he b (List.mem_cons_of_mem _ hb)] at hk
+    exact h.1 b hb hk
+
+theorem step_ord {s s' : St} (hi : Inv s) (ho : OrdInv s) (h : Step s s') : OrdInv s' := by
+  obtain ⟨lt, below, ord⟩ := ho
+  have wf := hi.wf
+  cases h with
+  | setNew k hc =>
+    have keyO : ∀ n, n ∈ s.atomicLog → upd s.keyOf s.next k n = s.keyOf n :=
+      fun n hn => upd_other _ _ _ _ (Nat.ne_of_lt (lt n hn))
+    refine ⟨fun n hn => Nat.lt_succ_of_lt (lt n hn), ?_, keyOrdered_congr ord keyO⟩
+    intro k' o hc' n hn hk
+    have hc'' : upd s.cell k (some s.next) k' = some o := hc'
+    have hk' : upd s.keyOf s.next k n = k' := hk
+    rw [keyO n hn] at hk'
+    by_cases hkk : k' = k
+    · subst hkk; rw [upd_self] at hc''; cases hc''; exact lt n hn
+    · rw [upd_other _ _ _ _ hkk] at hc''; exact below k' o hc'' n hn hk'
+  | setOld k o hc =>
+    have hol := (wf k o hc).1
+    have hok := (wf k o hc).2
+    have keyO : ∀ n, n < s.next → upd s.keyOf s.next k n = s.keyOf n :=
+      fun n hn => upd_other _ _ _ _ (Nat.ne_of_lt hn)
+    have memlt : ∀ n, n ∈ s.atomicLog ++ [o] → n < s.next := by
+      intro n hn
+      rcases List.mem_append.mp hn with h1 | h1
+      · exact lt n h1
+      · rw [List.mem_singleton] at h1; rw [h1]; exact hol
+    refine ⟨fun n hn => Nat.lt_succ_of_lt (memlt n hn), ?_, ?_⟩
+    · intro k' o' hc' n hn hk
+      have hc'' : upd s.cell k (some s.next) k' = some o' := hc'
+      have hk' : upd s.keyOf s.next k n = k' := hk
+      rw [keyO n (memlt n hn)] at hk'
+      by_cases hkk : k' = k
+      · subst hkk; rw [upd_self] at hc''; cases hc''; exact memlt n hn
+      · rw [upd_other _ _ _ _ hkk] at hc''
+        rcases List.mem_append.mp hn with h1 | h1
+        · exact below k' o' hc'' n h1 hk'
+        · rw [List.mem_singleton] at h1; subst h1
+          exact absurd (hok.symm.trans hk') (fun e => hkk e.symm)
+    · show KeyOrdered (upd s.keyOf s.next k) (s.atomicLog ++ [o])
+      apply keyOrdered_congr (keyOf := s.keyOf)
+      · exact keyOrdered_snoc ord (fun n hn hk => below k o hc n hn (hk.trans hok))
+      · intro n hn; exact keyO n (memlt n hn)
+  | invalidate k o hc =>
+    have hol := (wf k o hc).1
+    have hok := (wf k o hc).2
+    have memlt : ∀ n, n ∈ s.atomicLog ++ [o] → n < s.next := by
+      intro n hn
+      rcases List.mem_append.mp hn with h1 | h1
+      · exact lt n h1
+      · rw [List.mem_singleton] at h1; rw [h1]; exact hol
+    refine ⟨memlt, ?_, keyOrdered_snoc ord (fun n hn hk => below k o hc n hn (hk.trans hok))⟩
+    intro k' o' hc' n hn hk
+    have hc'' : upd s.cell k none k' = some o' := hc'
+    by_cases hkk : k' = k
+    · subst hkk; rw [upd_self] at hc''; cases hc''
+    · rw [upd_other _ _ _ _ hkk] at hc''
+      rcases List.mem_append.mp hn with h1 | h1
+      · exact below k' o' hc'' n h1 hk
+      · rw [List.mem_singleton] at h1; subst h1
+        exact absurd (hok.symm.trans hk) (fun e => hkk e.symm)
+  | evict n0 hc =>
+    have hol := (wf _ n0 hc).1
+    have memlt : ∀ n, n ∈ s.atomicLog ++ [n0] → n < s.next := by
+      intro n hn
+      rcases List.mem_append.mp hn with h1 | h1
+      · exact lt n h1
+      · rw [List.mem_singleton] at h1; rw [h1]; exact hol
+    refine ⟨memlt, ?_, keyOrdered_snoc ord (fun n hn hk => below _ n0 hc n hn hk)⟩
+    intro k' o' hc' n hn hk
+    have hc'' : upd s.cell (s.keyOf n0) none k' = some o' := hc'
+    by_cases hkk : k' = s.keyOf n0
+    · subst hkk; rw [upd_self] at hc''; cases hc''
+    · rw [upd_other _ _ _ _ hkk] at hc''
+      rcases List.mem_append.mp hn with h1 | h1
+      · exact below k' o' hc'' n h1 hk
+      · rw [List.mem_singleton] at h1; subst h1
+        exact absurd hk (fun e => hkk e.symm)
+  | run q1 q2 t hq => exact ⟨lt, below, ord⟩
+
+theorem reach_ord {s : St} (h : Reach s) : OrdInv s := by
+  induction h with
+  | init => exact ⟨fun n hn => (by cases hn), fun k o hc => (by cases hc), List.Pairwise.nil⟩
+  | step hr hst ih => exact step_ord (reach_inv hr) ih hst
+
+/-- **for one key, OnAtomicDeletion sees the departures in the order the values were installed** -/
+theorem atomic_in_installation_order {s : St} (h : Reach s) : KeyOrdered s.keyOf s.atomicLog := (reach_ord h).ord
+
 end OtterVerif.Conc.Events
